@@ -2989,7 +2989,9 @@ impl RelationalEngine {
             for col in &indexed_columns {
                 if col == "_id" {
                     self.index_add(table, col, &Value::Int(row_id as i64), row_id)?;
-                } else if let Some(value) = values.get(col) {
+                } else {
+                    // an omitted nullable column is stored as NULL, so index it as NULL
+                    let value = values.get(col).unwrap_or(&Value::Null);
                     self.index_add(table, col, value, row_id)?;
                 }
             }
@@ -2997,7 +2999,9 @@ impl RelationalEngine {
             for col in &btree_columns {
                 if col == "_id" {
                     self.btree_index_add(table, col, &Value::Int(row_id as i64), row_id)?;
-                } else if let Some(value) = values.get(col) {
+                } else {
+                    // an omitted nullable column is stored as NULL, so index it as NULL
+                    let value = values.get(col).unwrap_or(&Value::Null);
                     self.btree_index_add(table, col, value, row_id)?;
                 }
             }
@@ -6796,7 +6800,9 @@ impl RelationalEngine {
         for col in &indexed_columns {
             if col == "_id" {
                 self.index_add(table, col, &Value::Int(row_id as i64), row_id)?;
-            } else if let Some(value) = values.get(col) {
+            } else {
+                // an omitted nullable column is stored as NULL, so index it as NULL
+                let value = values.get(col).unwrap_or(&Value::Null);
                 self.index_add(table, col, value, row_id)?;
             }
         }
@@ -6805,7 +6811,9 @@ impl RelationalEngine {
         for col in &btree_columns {
             if col == "_id" {
                 self.btree_index_add(table, col, &Value::Int(row_id as i64), row_id)?;
-            } else if let Some(value) = values.get(col) {
+            } else {
+                // an omitted nullable column is stored as NULL, so index it as NULL
+                let value = values.get(col).unwrap_or(&Value::Null);
                 self.btree_index_add(table, col, value, row_id)?;
             }
         }
@@ -6815,7 +6823,8 @@ impl RelationalEngine {
         for col in indexed_columns.iter().chain(btree_columns.iter()) {
             if col == "_id" {
                 index_entries.push((col.clone(), Value::Int(row_id as i64)));
-            } else if let Some(value) = values.get(col) {
+            } else {
+                let value = values.get(col).unwrap_or(&Value::Null);
                 index_entries.push((col.clone(), value.clone()));
             }
         }
